@@ -406,7 +406,7 @@ structure FigArgs where
 /-- `float | list[float]` with `convert_dimensions` and `validate_positive_dimensions` -/
 def figDimOk : Raw → Bool
   | .scalar v => v != .null && optPositive .float v
-  | .flat vs | .tuple vs => vs.all (fun v => v != .null && optPositive .float v)
+  | .flat vs | .tuple vs => !vs.isEmpty && vs.all (fun v => v != .null && optPositive .float v)
   | _ => false
 
 def optStrIn (ks : List String) : Option Val → Bool
